@@ -117,7 +117,7 @@ PROPS = {
     'C15': dict(coq=['props/C15.vo'], families=[('l1', 600, 20000), ('l2mixed', 600, 20000), ('l1fail', 300, 5000), ('mem', 300, 5000), ('enc', 500, 10000), ('runs', 14, 80)], projections=['results'], oracle=oracle_c15, classify=classify_c15,
         technique=TILING + '; harness built with debug assertions and overflow checks, every call under catch_unwind; long-run inputs on a 512 KiB stack (an abnormal end of the process is reported with the unfinished case as the replay)',
         level_text='Theorem C15_no_offset_panic: in the model every slice of the chunk and the end-of-chunk cursor rewind is a checked operation; for every observer controller, input and chunking '
-                   'they never fail (the debug_assert! in Bytes::slice and the usize underflow in break_on_end_of_input are unreachable); C15_wrap32_in_range (i32 arithmetic of nth-child); C15_inline_transitions_form_no_cycle (on the regenerated state table the `--> #[inline]` edges, which are direct calls, form no cycle: nested state-function calls are bounded by the number of states for every input). '
+                   'they never fail (the debug_assert! in Bytes::slice and the usize underflow in break_on_end_of_input are unreachable); C15_wrap32_in_range (i32 arithmetic of nth-child); C15_inline_transitions_form_no_cycle (on the regenerated state table the `--> #[inline]` edges, which are direct calls, form no cycle: nested state-function calls are bounded by the number of states for every input); C15_namespace_stack_never_empty (the namespace stack of the tree builder simulator is never empty for every protocol-following call sequence: the debug_assert in leave_ns is unreachable). '
                    'Partial: termination/linear work is by fuel in the model (fuel exhaustion would show as a model panic in the correspondence run, never observed); code outside the model '
                    '(cssparser, encoding_rs, Debug impls), stack exhaustion and allocation failure are not covered. Known finding PreallocAboveLimit.',
         level_note='Trusted as C01; the correspondence run compares call results incl. panics caught by catch_unwind in a debug-assertion + overflow-check build.'),
